@@ -111,6 +111,47 @@ fn check_chrono(secs: i64, nanos: u32, off: i32, acc: &mut Acc) {
     });
 }
 
+/// chrono's leap-second representation: second `secs` (with secs % 60 == 59) and a nanosecond field in 10^9..2·10^9.
+/// Such an instant lies strictly between `secs`.999999999 and `secs + 1`; what number it converts to is not
+/// specified by the statement, so only the ordering clauses are judged: the result must lie between the
+/// results of its two neighbours, and an instant before the epoch is an underflow.
+fn check_leap(secs: i64, nanos: u32, off: i32, acc: &mut Acc) {
+    let Some(utc) = DateTime::<Utc>::from_timestamp(secs, nanos) else {
+        acc.count("unrepresentable");
+        return;
+    };
+    let (Some(before), Some(after)) = (DateTime::<Utc>::from_timestamp(secs, 999_999_999), DateTime::<Utc>::from_timestamp(secs + 1, 0)) else { return };
+    let fo = FixedOffset::east_opt(off).expect("offset");
+    acc.evals += 1;
+    let case = || json!({"kind": "chrono-leap", "secs": secs, "nanos": nanos, "offset": off});
+    let conv = |d: DateTime<Utc>| catch(|| Timestamp::try_from(d.with_timezone(&fo))).map(|r| r.map(|t| t.0));
+    let (lo, got, hi) = match (conv(before), conv(utc), conv(after)) {
+        (Ok(a), Ok(b), Ok(c)) => (a, b, c),
+        (a, b, c) => {
+            for r in [a, b, c] {
+                if let Err(p) = r {
+                    acc.viol(panic_violation("chrono", &p, case()));
+                }
+            }
+            return;
+        }
+    };
+    // rank: underflow < Ok(n) < overflow
+    let rank = |r: &Result<u32, TimestampError>| match r {
+        Err(TimestampError::Underflow) => -1i64,
+        Ok(n) => *n as i64,
+        Err(TimestampError::Overflow) => 1 << 40,
+    };
+    acc.nontrivial += 1;
+    acc.count("leap-second representation");
+    if !(rank(&lo) <= rank(&got) && rank(&got) <= rank(&hi)) {
+        acc.viol(Violation::new("chrono", format!("leap second {}s+{}ns @{:+}s converts to {:?}, its neighbours to {:?} and {:?}: ordering not preserved", secs, nanos, off, got, lo, hi), case()).sig("clause", "monotone-leap"));
+    }
+    if secs < 0 && got != Err(TimestampError::Underflow) {
+        acc.viol(Violation::new("chrono", format!("leap second {}s+{}ns @{:+}s lies before the epoch but converts to {:?}", secs, nanos, off, got), case()).sig("clause", "underflow"));
+    }
+}
+
 const W: i64 = 4096;
 
 fn window_secs() -> Vec<i64> {
@@ -129,7 +170,12 @@ fn builder_path(ctx: &Ctx) -> SubReport {
     let mut acc = Acc::new();
     let dir = crate::ctx::run_dir().join("c20");
     let _ = std::fs::create_dir_all(&dir);
-    let cases: [(i64, u32, bool); 6] = [(-1, 0, false), (-1, 999_999_999, false), (0, 0, true), (TWO32 as i64 - 1, 0, true), (TWO32 as i64 - 1, 999_999_999, true), (TWO32 as i64, 0, false)];
+    let mut cases: Vec<(i64, u32, bool)> = vec![];
+    for secs in [-86_400i64 * 366, -2, -1, 0, 1, (1 << 31) - 1, 1 << 31, TWO32 as i64 - 2, TWO32 as i64 - 1, TWO32 as i64, TWO32 as i64 + 1, 1 << 33] {
+        for nanos in [0u32, 1, 500_000_000, 999_999_999] {
+            cases.push((secs, nanos, (0..TWO32 as i64).contains(&secs)));
+        }
+    }
     for (i, (secs, nanos, want_ok)) in cases.iter().enumerate() {
         let p = dir.join(format!("f{}", i));
         std::fs::write(&p, b"x").expect("temp file");
@@ -151,16 +197,31 @@ fn builder_path(ctx: &Ctx) -> SubReport {
             rpm::PackageBuilder::new("t", "1", "MIT", "noarch", "s")
                 .compression(rpm::CompressionType::None)
                 .with_file(&p, rpm::FileOptions::new("/f"))
-                .map(|_| ())
+                .and_then(|b| b.build())
+                .and_then(|pkg| pkg.metadata.get_file_entries())
+                .map(|fe| fe.first().map(|f| f.modified_at.0))
         });
         match r {
-            Err(pn) => acc.viol(panic_violation("builder", &pn, case)),
+            Err(pn) => acc.viol(panic_violation("builder", &pn, case.clone())),
             Ok(res) => {
                 if res.is_ok() != *want_ok {
                     acc.viol(
-                        Violation::new("builder", format!("with_file on mtime {}s+{}ns: ok={} want ok={}", secs, nanos, res.is_ok(), want_ok), case)
+                        Violation::new("builder", format!("with_file on mtime {}s+{}ns: ok={} want ok={}", secs, nanos, res.is_ok(), want_ok), case.clone())
                             .sig("clause", "with_file"),
                     );
+                }
+                match &res {
+                    Ok(mt) => {
+                        if *mt != Some(*secs as u32) {
+                            acc.viol(Violation::new("builder", format!("with_file on mtime {}s+{}ns: the package records {:?}", secs, nanos, mt), case.clone()).sig("clause", "with_file-value"));
+                        }
+                    }
+                    Err(e) => {
+                        let want = if *secs < 0 { TimestampError::Underflow } else { TimestampError::Overflow };
+                        if !matches!(e, rpm::Error::TimestampConv(k) if *k == want) {
+                            acc.viol(Violation::new("builder", format!("with_file on mtime {}s+{}ns: error is {:?}, want TimestampConv({:?})", secs, nanos, e, want), case.clone()).sig("clause", "with_file-error-kind"));
+                        }
+                    }
                 }
                 acc.count(if res.is_ok() { "accepted" } else { "rejected" });
                 if res.is_ok() {
@@ -172,7 +233,7 @@ fn builder_path(ctx: &Ctx) -> SubReport {
     }
     let _ = std::fs::remove_dir_all(&dir);
     let _ = ctx;
-    SubReport::new("builder", "A", "with_file on real files whose mtime is −1 s, 0, 2^32−1, 2^32 (skipped where the file system cannot store the mtime); non-trivial = accepted", acc)
+    SubReport::new("builder", "A", "with_file on real files whose mtime is −366 d, −2, −1, 0, 1, 2^31−1, 2^31, 2^32−2, 2^32−1, 2^32, 2^32+1, 2^33 s × sub-second {0, 1 ns, 0.5 s, 999 999 999 ns} (skipped where the file system cannot store the mtime): accepted exactly inside 0..2^32 with the whole second recorded in the built package, underflow / overflow reported as such; non-trivial = accepted", acc)
 }
 
 pub fn run(ctx: &Ctx) -> i32 {
@@ -212,11 +273,16 @@ pub fn run(ctx: &Ctx) -> i32 {
         for n in NANOS {
             check_chrono(s, n, off, acc);
         }
+        if s.rem_euclid(60) == 59 && s.unsigned_abs() < (1u64 << 40) {
+            for n in [1_000_000_000u32, 1_000_000_001, 1_500_000_000, 1_999_999_999] {
+                check_leap(s, n, off, acc);
+            }
+        }
     }));
     let mut cs = SubReport::new(
         "chrono-windows",
         "A",
-        "same windows × fixed offsets {−12 h, −1 s, 0, +5:45, +14 h}, plus MIN_UTC/MAX_UTC in each zone",
+        "same windows × fixed offsets {−12 h, −1 s, 0, +5:45, +14 h}, plus MIN_UTC/MAX_UTC in each zone; every minute-ending second of the windows also in chrono's leap-second representation (nanosecond field 10^9 … 2·10^9−1): ordering clauses only",
         c,
     )
     .not_exhaustive();
